@@ -172,7 +172,8 @@ chk('C19',
     'parents, acyclicity, leaf-only erase, views agree, reload preserves the schema), result == fresh BinarySynthes of the '
     'parents right after a successful Execute with user additions carried over under the old->new alias map, and '
     '"done" implies the parents announced no formal change since the result was built.',
-    'Trusted: the harness source manager (documents always savable) and the reference synthesis (real BinarySynthes, checked by C12).',
+    'Trusted: the harness source manager (result documents can be made read-only as a failure injection; a build of a result is recognised '
+    'by a write of its document) and the reference synthesis (real BinarySynthes, checked by C12).',
     'sanitizer build + structural-invariant monitor, differential oracle (stored result vs fresh synthesis) and announcement-log freshness monitor over OSS histories', 'DESIGN.md 4 C19')
 
 for _p in ['C01', 'C02', 'C03', 'C04', 'C05', 'C06', 'C07', 'C08', 'C09', 'C10', 'C11', 'C12', 'C13', 'C15', 'C16',
